@@ -200,7 +200,11 @@ func genC16(e *emitter, tier string) {
 		return v
 	}
 	for r := 0; r < reps; r++ {
-		for N := 1; N <= 5; N++ {
+		Ns := []int{1, 2, 3, 4, 5}
+		if r == 0 {
+			Ns = append(Ns, 9, 17) // more samples than cores, odd counts
+		}
+		for _, N := range Ns {
 			// sample models (floats: compared with a tolerance - testing)
 			s := 1 + e.rng.Intn(3)
 			e.emit(batchCase("sample:mlp", sampleModelLoader("mlp.onnx"), "mlp.onnx", []BatchIn{{"data_input", []int{N, 3}, 0}}, map[string][]float64{"data_input": rnd(N*3, 2)}, false))
